@@ -11,10 +11,19 @@ open NR.Heap
 /-- Per-vehicle int fields; all other carved int fields have one entry per stop. -/
 def isV (f : String) : Bool := f = "first" || f = "last" || f = "vehicleIndices"
 
-/-- Treatments under which a field of the copy shares nothing mutable with the original. -/
-def okTreatment (field how : String) : Bool :=
+/-- Does the field's Go type hold `Copier` objects (per-stop or per-solution data of constraints and objectives)?
+Decided by the extractor (substring test on the type), fourth column of the table. -/
+def holdsCopiers (r : List String) : Bool := r.getD 3 "" = "holds-copiers"
+
+/-- Treatments under which a field of the copy shares nothing mutable with the original. A fresh map or slice
+whose elements are `Copier` objects must be filled with `.Copy()` of each element ("elems:deep") and by nothing
+else — a generic map copy helper or a plain assignment shares the objects between original and copy. -/
+def okTreatment (field ty how : String) (hc : Bool) : Bool :=
   how = "carved:ints" || how = "carved:floats" || how = "carved-per-expression:floats" ||
-  how = "fresh-make" || how = "fresh-collection" || how = "fresh-collection+units-recreated" ||
+  (how = "fresh-make" && !hc) ||
+  (how = "fresh-make+elems:deep" && hc) ||
+  (how = "fresh-make+elems:assigned" && ty = "map[ModelObjective]float64") ||
+  how = "fresh-collection" || how = "fresh-collection+units-recreated" ||
   how = "cloned" || how = "fresh-random" ||
   (field = "model" && how = "shared-model") ||          -- the model is read-only once locked
   (field = "randomMutex" && how = "NOT-HANDLED")        -- a mutex must not be copied: zero value
@@ -22,7 +31,14 @@ def okTreatment (field how : String) : Bool :=
 /-- Every field of `solutionImpl` is given an independent value by `Copy` — a field added to the
 struct and forgotten in `Copy` shows up here as NOT-HANDLED and breaks this theorem. -/
 theorem every_field_handled :
-    NR.Facts.copyFields.all (fun r => okTreatment (r.getD 0 "") (r.getD 2 "")) = true := by
+    NR.Facts.copyFields.all (fun r => okTreatment (r.getD 0 "") (r.getD 1 "") (r.getD 2 "") (holdsCopiers r)) = true := by
+  decide
+
+/-- The four data tables of constraints and objectives are deep-copied element by element. -/
+theorem copier_tables_deep_copied :
+    (NR.Facts.copyFields.filter holdsCopiers).map (fun r => (r.getD 0 "", r.getD 2 "")) =
+      [("constraintSolutionData", "fresh-make+elems:deep"), ("constraintStopData", "fresh-make+elems:deep"),
+       ("objectiveSolutionData", "fresh-make+elems:deep"), ("objectiveStopData", "fresh-make+elems:deep")] := by
   decide
 
 /-- All 30 fields are accounted for (the table is not empty by accident). -/
